@@ -13,6 +13,9 @@ families
   notin     `a not in b`                 -> `not a in b`;  `a is not b` -> `not a is b`
   retelse   `if c: ...return` + rest     -> `if c: ... return  else: rest`
   ternary   `if c: x = A else: x = B`    -> `x = A if c else B`
+  merge     `if a: if b: X`              -> `if a and b: X`
+  split     `if a and b: X`              -> `if a: if b: X`
+  hoist     `if f(x) == C: ...`          -> `_h = f(x) == C; if _h: ...`
 
 usage: tools/transform_silence.py [family ...]   (default: all, one after another)
        tools/transform_silence.py --per-file family   (one file at a time: slower, finer)
@@ -181,9 +184,74 @@ class Ternary(ast.NodeTransformer):
         return node
 
 
+class Merge(ast.NodeTransformer):
+    n = 0
+
+    def visit_If(self, node):
+        self.generic_visit(node)
+        if not node.orelse and len(node.body) == 1 and \
+                isinstance(node.body[0], ast.If) and not node.body[0].orelse:
+            Merge.n += 1
+            inner = node.body[0]
+            return ast.If(test=ast.BoolOp(op=ast.And(), values=[node.test,
+                                                                inner.test]),
+                          body=inner.body, orelse=[])
+        return node
+
+
+class Split(ast.NodeTransformer):
+    n = 0
+
+    def visit_If(self, node):
+        self.generic_visit(node)
+        if not node.orelse and isinstance(node.test, ast.BoolOp) and \
+                isinstance(node.test.op, ast.And):
+            Split.n += 1
+            first, rest = node.test.values[0], node.test.values[1:]
+            rt = rest[0] if len(rest) == 1 else ast.BoolOp(op=ast.And(),
+                                                           values=rest)
+            return ast.If(test=first, body=[ast.If(test=rt, body=node.body,
+                                                   orelse=[])], orelse=[])
+        return node
+
+
+class Hoist(ast.NodeTransformer):
+    """if <compare or call test>: ...  ->  _hN = <test>; if _hN: ...
+    (only for ifs that are direct members of a block, not elif arms)"""
+    n = 0
+
+    def block(self, body):
+        out = []
+        for s in body:
+            if isinstance(s, ast.If) and isinstance(s.test, (ast.Compare,
+                                                             ast.Call)) and \
+                    not any(isinstance(x, (ast.NamedExpr, ast.Await, ast.Yield))
+                            for x in ast.walk(s.test)):
+                Hoist.n += 1
+                name = '_h%d' % Hoist.n
+                out.append(ast.Assign(targets=[ast.Name(id=name,
+                                                        ctx=ast.Store())],
+                                      value=s.test))
+                s.test = ast.Name(id=name, ctx=ast.Load())
+            out.append(s)
+        return out
+
+    def generic_visit(self, node):
+        super().generic_visit(node)
+        for f in ('body', 'orelse', 'finalbody'):
+            b = getattr(node, f, None)
+            if isinstance(b, list) and b and isinstance(b[0], ast.stmt):
+                if f == 'orelse' and isinstance(node, ast.If) and \
+                        len(b) == 1 and isinstance(b[0], ast.If):
+                    continue                      # elif arm
+                setattr(node, f, self.block(b))
+        return node
+
+
 FAMILIES = {'swap': Swap, 'cont': Cont, 'cmp': Cmp, 'aug': Aug,
             'demorgan': DeMorgan, 'notin': NotIn, 'retelse': RetElse,
-            'ternary': Ternary}
+            'ternary': Ternary, 'merge': Merge, 'split': Split,
+            'hoist': Hoist}
 
 
 def sources():
